@@ -2,6 +2,7 @@ package main
 
 import (
 	"fmt"
+	"os"
 	"path"
 	"sort"
 	"strings"
@@ -21,6 +22,13 @@ var plainNames = []string{"pet", "owner", "tag", "item", "order", "user", "thing
 // alphabet of the properties: spaces, unicode, '/', '~', '?', '#', brackets and braces (never '%', '.', '"', '\\')
 var exoticNames = []string{"a b", "é", "x/y", "t~k", "q?", "h#h", "b[0]", "c{d}", "ünï cödé", "sp ace/sl~ash",
 	"x y/z~w", "日本", "w{id}", "m[n]/o", "~tilde", "/lead", "trail/", "q?r#s", " lead space"}
+
+func init() {
+	// SIM_EXOTIC="a b,é" replaces the pool of exotic names (triage aid: which name classes still fail)
+	if v := os.Getenv("SIM_EXOTIC"); v != "" {
+		exoticNames = strings.Split(v, ",")
+	}
+}
 
 var plainProps = []string{"id", "name", "owner", "tags", "kind", "value", "next", "items", "data", "meta", "count", "child", "parent", "status"}
 
